@@ -33,7 +33,12 @@ macro_rules! imple_hook_data_env {
 	($t: ty) => {
 		impl HookEnvData for $t {
 			fn set_env(&mut self, env: &HashMap<String, String>) {
-				for (key, value) in env::vars().chain(env.iter().map(deref)) {
+				// The daemon's own environment never overrides a value set by a previous,
+				// more general configuration level.
+				for (key, value) in env::vars() {
+					self.env.entry(key).or_insert(value);
+				}
+				for (key, value) in env.iter().map(deref) {
 					self.env.insert(key, value);
 				}
 			}
